@@ -69,7 +69,9 @@ def paren(T, t, need, extra_rate, rnd):
     kids = []
     for s, c in enumerate(t[3:]):
         pc = paren(T, c, need, extra_rate, rnd)
-        if c[0] != "leaf" and pc[0] != "paren" and need(kind, e, s, c[1]):
+        glue = (c[0] == "pre" and T["spell"][c[2]]["words"] == ["not"] and T["spell"][sid]["words"][-1] == "is" and s == len(t) - 4)
+        # `is` directly followed by a prefix `not` would be read as the operator `is not` (longest match): never generated
+        if c[0] != "leaf" and pc[0] != "paren" and (need(kind, e, s, c[1]) or glue):
             pc = ("paren", pc)
         elif pc[0] != "paren" and c != ("leaf", 0) and rnd.random() < extra_rate:
             pc = ("paren", pc)
